@@ -770,6 +770,17 @@ theorem init_quiet (cfg : Cfg) (maxCost : Int) (samples : Nat) (hcap : 0 < cfg.b
     · exact h
   · intro k e hk; simp [Cache.init, Store.empty] at hk
 
+/-- the refinement from any quiescent starting state -/
+theorem refines_from (su : Nat → Nat → Bool) (c0 : Cache) (ops : List QOp) (c : Cache)
+    (h : QRun su c0 ops c) (q : Quiet c0) :
+    Quiet c ∧ SpecRun su (fun k => c0.store.items.get k) ops (fun k => c.store.items.get k) := by
+  induction h with
+  | nil => exact ⟨q, SpecRun.nil _⟩
+  | snoc c' ops op _ hok ih =>
+    obtain ⟨q', sr⟩ := ih
+    obtain ⟨q'', ss⟩ := qstep_refines su c' op q' hok
+    exact ⟨q'', SpecRun.snoc _ _ _ ops op sr ss⟩
+
 /-- **C04, composed over sequential histories**: for every history of inserts (any TTLs, switching
 between TTL and none), removes, clears, lookups and cleanup ticks in which each operation is taken to
 quiescence and every new key finds room, the store of the cache *is* a run of the abstract map with
@@ -779,20 +790,28 @@ removes what is due; the final state is quiescent and satisfies C05's and C06's 
 theorem refines_ttl_map (su : Nat → Nat → Bool) (cfg : Cfg) (maxCost : Int) (samples : Nat) (hcap : 0 < cfg.bufCap)
     (ops : List QOp) (c : Cache) (hr : QRun su (Cache.init cfg maxCost samples) ops c) :
     Quiet c ∧ SpecRun su (fun _ => none) ops (fun k => c.store.items.get k) := by
-  have gen : ∀ c0 ops c, QRun su c0 ops c → Quiet c0 →
-      Quiet c ∧ SpecRun su (fun k => c0.store.items.get k) ops (fun k => c.store.items.get k) := by
-    intro c0 ops c h
-    induction h with
-    | nil => intro q; exact ⟨q, SpecRun.nil _⟩
-    | snoc c' ops op _ hok ih =>
-      intro q
-      obtain ⟨q', sr⟩ := ih q
-      obtain ⟨q'', ss⟩ := qstep_refines su c' op q' hok
-      exact ⟨q'', SpecRun.snoc _ _ _ ops op sr ss⟩
-  have := gen _ ops c hr (init_quiet cfg maxCost samples hcap)
+  have := refines_from su _ ops c hr (init_quiet cfg maxCost samples hcap)
   refine ⟨this.1, ?_⟩
   have h0 : (fun k => (Cache.init cfg maxCost samples).store.items.get k) = (fun _ => (none : Option Entry)) := by
     funext k; simp [Cache.init, Store.empty]
+  rw [← h0]; exact this.2
+
+/-- **a cleared cache is a fresh map** (C11's "behaves like a fresh one", at the level of C04): whatever
+sequential history `ops₁` preceded it, once a `clear()` has been taken to quiescence the history `ops₂`
+that follows is a run of the abstract map *from the empty map* — exactly what `refines_ttl_map` says of
+a newly built cache — so keys re-used after the clear, with another TTL or none, are stored, found,
+expired and removed as on a new cache. -/
+theorem cleared_is_fresh_map (su : Nat → Nat → Bool) (cfg : Cfg) (maxCost : Int) (samples : Nat) (hcap : 0 < cfg.bufCap)
+    (ops₁ ops₂ : List QOp) (id : Nat) (c₁ c : Cache)
+    (h₁ : QRun su (Cache.init cfg maxCost samples) ops₁ c₁) (hok : OpOk c₁ (.clear id))
+    (h₂ : QRun su (qstep su c₁ (.clear id)) ops₂ c) :
+    Quiet c ∧ SpecRun su (fun _ => none) ops₂ (fun k => c.store.items.get k) := by
+  have q₁ := (refines_from su _ ops₁ c₁ h₁ (init_quiet cfg maxCost samples hcap)).1
+  obtain ⟨qc, sc⟩ := qstep_refines su c₁ (.clear id) q₁ hok
+  have := refines_from su _ ops₂ c h₂ qc
+  refine ⟨this.1, ?_⟩
+  have h0 : (fun k => (qstep su c₁ (.clear id)).store.items.get k) = (fun _ => (none : Option Entry)) := by
+    funext k; exact sc k
   rw [← h0]; exact this.2
 
 /-- what a lookup returns is read off the map: the resident entry, unless its conflict hash differs or
@@ -844,4 +863,5 @@ end Stretto.C04
 #print axioms Stretto.C04.qTick_refines
 #print axioms Stretto.C04.qstep_refines
 #print axioms Stretto.C04.refines_ttl_map
+#print axioms Stretto.C04.cleared_is_fresh_map
 #print axioms Stretto.C04.lookup_reads_map
